@@ -1,21 +1,126 @@
-"""Per-property registration: level, extra (structural) obligation generators, trusted base,
-things not decided.  Filled as properties get built; a property absent here is not claimed."""
+"""Per-property registration: level, what the contracts decide, trusted base, what is not
+decided, bounded stand-ins.  A property absent from PROPS is not claimed (MANIFEST
+not_applicable)."""
 from __future__ import annotations
 
 PROPS: dict = {}
 
+A_H11 = "A-h11 (assumed, bounded audit): h11.Connection client-role contract - see contracts/ext_h11.py"
+A_H2 = "A-h2 (assumed, bounded audit): h2.connection.H2Connection contract - see contracts/ext_h2.py"
+A_NET = "A-runtime (assumed): network stream / backend interface contract, locks, shields, Trace - see contracts/common.py, ext_runtime.py"
+A_SOCKS = "A-socksio (assumed): SOCKS5Connection negotiation contract - see contracts/m_socks_proxy.py"
+A_STD = "A-stdlib (assumed, bounded audit): urllib.parse decomposition contract, str.encode('ascii'), base64 - see contracts/m_models.py"
+A_IFACE = "interface abstraction: pool-level proofs use ghost observers of AsyncConnectionInterface; each class is proved against its own observer spec; the composition is a paper argument (DESIGN 2.4)"
+A_SHIELD = "AsyncShieldCancellation blocks cancellation (true for trio / anyio scopes; FALSE for native asyncio Task.cancel(): design_probes/p08, recorded assumption)"
+A_SYNC = "sync tree: the same function contracts are proved with sequential semantics (no interference model between lock regions); thread interleavings are covered only by the lock-discipline obligations of C08"
+
 
 def prop(pid, **kw):
+    kw.setdefault("level", "proof")
+    kw.setdefault("trusted", [])
+    kw.setdefault("not_decided", [])
+    kw.setdefault("bounded", [])
+    kw.setdefault("structural", [])
     PROPS[pid] = kw
     return kw
 
+
+prop(
+    "C01",
+    title="responses belong to their own request",
+    explanation="HTTP/1.1: ACTIVE gate is an atomic test-and-set under the state lock, ConnectionNotAvailable leaves the connection untouched, every failed exchange is closed exactly once, _response_closed returns to IDLE only from h11 DONE/DONE (else closes), observers (is_available == IDLE), body stream bound to its connection and request, wrappers pass the caller's request to their own inner connection and return its response; HTTP/2: events are queued only on the stream they carry, stream events delivered FIFO per stream id; pool: a request is assigned only a connection that can handle its origin and is available",
+    trusted=[A_H11, A_H2, A_NET, A_IFACE, A_SHIELD, A_SYNC],
+    not_decided=["that h11/h2 attribute bytes to messages correctly (inside the libraries)"],
+)
+prop(
+    "C02",
+    title="byte-exact delivery",
+    explanation="plumbing obligations between network stream, h11/h2 and caller: every read result is fed to the parser exactly once and unmodified, EOF before a response head raises RemoteProtocolError, the head loop skips only non-101 1xx and returns the last event's fields, the body generator yields exactly the data of every Data event until EndOfMessage/PAUSED, wrappers yield exactly the inner chunks, Response() stores status/headers in order",
+    trusted=[A_H11, A_H2, A_NET, A_SYNC],
+    not_decided=["segmentation independence and framing live inside h11/h2 (assumed; bounded differential audit)"],
+    bounded=["audit/h11_contract.py: h11 segmentation independence, all cut positions of generated responses (bounded)"],
+)
+prop(
+    "C03",
+    title="requests serialised faithfully",
+    explanation="include_request_headers equals the default-header spec function (Host first iff absent, Content-Length / Transfer-Encoding iff neither present); Request() applies the target extension only to the target; h11.Request gets exactly method/target/headers of the request; _send_event writes exactly h11's output once; one Data event per body chunk in order then exactly one EndOfMessage; a rejected head writes nothing; HTTP/2 header list and end_stream spec",
+    trusted=[A_H11, A_H2, A_NET, A_SYNC],
+    not_decided=["the h11/h2 encoders themselves (assumed)", "re-send of a one-shot body iterator after a transparent retry (recorded finding when the pool contracts flag it)"],
+)
+prop(
+    "C04",
+    title="connection limit never exceeded",
+    explanation="pool invariant len(_connections) <= max_connections kept by the assignment pass (append only under len < max or right after one removal), only the pass and aclose mutate the list (frame scan), connections are established only under the request lock with _connection unset, failed attempts leave no open stream",
+    trusted=[A_NET, A_IFACE, A_SHIELD, A_SYNC],
+)
+prop(
+    "C05",
+    title="failed and cancelled requests give their slot back",
+    explanation="exceptional postconditions on every exit path (each documented exception class and Cancelled at each unshielded suspension point) of the connection classes and the pool: failed exchanges end IDLE or CLOSED through a shielded _response_closed, establishment failures set the connect-failed flag, the pool removes the request and re-runs the assignment pass on every exit",
+    trusted=[A_H11, A_H2, A_NET, A_IFACE, A_SHIELD, A_SYNC],
+    not_decided=["native asyncio cancellation inside shielded regions (assumption A_SHIELD is false there: one recorded root cause)"],
+)
+prop(
+    "C06",
+    title="every opened stream is eventually closed",
+    explanation="ownership obligations: every stream opened in a function is, on every exit path, returned, handed to a protocol connection, or closed; aclose of every class closes what it owns; the pool hands every removed, not-closed connection to _close_connections; pool.aclose empties the list into _close_connections",
+    trusted=[A_NET, A_IFACE, A_SHIELD, A_SYNC, "backends close the raw stream when start_tls fails with an Exception (stated in the stream contract; the three real backends are read, not verified)"],
+)
+prop(
+    "C09",
+    title="keep-alive reuse, limits, expiry",
+    explanation="expiry armed as now + keepalive_expiry exactly when a connection turns idle and cleared when a request starts; has_expired spec (deadline passed, or idle HTTP/1.1 socket readable); clean-up pass closes expired and surplus-idle connections only, counting idle ones; reuse-before-create in the assignment pass",
+    trusted=[A_H11, A_H2, A_NET, A_IFACE, A_SYNC],
+)
+prop(
+    "C10",
+    title="origin-exact routing, TLS per scheme",
+    explanation="Origin.__eq__ iff scheme/host/port equal; can_handle_request gates of all six connection classes; connect_tcp/connect_unix/start_tls call-site preconditions (host, port, SNI = sni_hostname or host, ALPN offers h2 iff http2, context configured-or-default, TLS iff https/wss); HTTP/2 class iff negotiated or HTTP/1.1 disabled; CONNECT target and SOCKS command name the remote origin; pool picks the connection class by proxy/scheme",
+    trusted=[A_NET, A_SOCKS, A_SYNC],
+)
+prop(
+    "C11",
+    title="proxy hops see exactly what is meant for them",
+    explanation="merge_headers equals the spec (override wins case-insensitively, defaults first); forwarded request = absolute target, merged headers, caller's body/extensions, sent on the proxy connection; CONNECT = method/target/Host+Accept+proxy headers only, origin request only after 2xx and only inside the tunnel, other replies close and raise ProxyError with nothing further sent; Proxy() auth header; SOCKS5 negotiation content and strict order, no HTTP before success",
+    trusted=[A_NET, A_SOCKS, A_IFACE, A_SYNC],
+)
+prop(
+    "C14",
+    title="at most once on the wire unless refused",
+    explanation="ConnectionNotAvailable is raised only at the HTTP/1.1 gate with nothing written (and at the HTTP/2 gates / GOAWAY branch under stream_id > last_stream_id); no read/receive function may raise it; WriteError while sending is swallowed only around the send and never re-raised; connect retries only wrap establishment; the pool loops only on ConnectionNotAvailable",
+    trusted=[A_H11, A_H2, A_NET, A_IFACE, A_SYNC],
+)
+prop(
+    "C15",
+    title="only documented exception types reach the caller",
+    explanation="raises clauses: for every function under contract every exception class that can escape on any path (callee outcomes per assumed raises sets, implicit IndexError/KeyError/ValueError/AssertionError/TypeError sites, map_exceptions mappings read from the code) is in the documented set",
+    trusted=[A_H11, A_H2, A_NET, A_SOCKS, A_SYNC, "raises sets of h11, h2, socksio, backends as stated in the sidecars (assumed)", "exceptions of caller-supplied callables (trace callback, body iterator) excluded by precondition"],
+    not_decided=["'never hangs once input has ended' only as: loops that poll the parser read the network each round (no liveness proof)"],
+)
+prop(
+    "C16",
+    title="timeouts applied to the right operations",
+    explanation="call-site preconditions: every connect/TLS start gets extensions.timeout.connect, every read .read, every write .write, the pool wait .pool; absent means None; pass-through wrappers forward their timeout argument",
+    trusted=[A_NET, A_SYNC],
+    not_decided=["the instant at which PoolTimeout fires (runtime primitive, assumed)"],
+)
 prop(
     "C17",
-    level="proof",
-    explanation="sequence postconditions on the real AsyncHTTP11UpgradeStream/HTTP11UpgradeStream methods and the wrap/capture obligations on the HTTP/1.1 connection, for all max_bytes and all byte contents",
-    trusted=[],
-    not_decided=[],
+    title="upgrade / CONNECT hand-over loses no bytes",
+    explanation="sequence postconditions on the real upgrade stream for all max_bytes and contents (result ++ leading' ++ net' == leading ++ net, leading data first without touching the network, failures consume nothing), pass-through of write/close/start_tls/extra-info, trailing data captured with the head event, wrapped iff 101 or 2xx-to-CONNECT, switched connections take the close branch",
+    trusted=[A_H11, A_NET, A_SYNC],
 )
-
-for _p in ("C01", "C02", "C03", "C04", "C05", "C06", "C07", "C08", "C09", "C10", "C11", "C12", "C13", "C14", "C15", "C16", "C19", "C20"):
-    prop(_p, level="proof", explanation="", trusted=[], not_decided=[])
+prop(
+    "C19",
+    title="URL / origin / default header semantics",
+    explanation="enforce_bytes/enforce_headers per input kind, URL.__init__ against the RFC 3986 decomposition (assumed urllib contract), origin default ports, URL/Origin equality, bytes(URL), Request() target extension, include_request_headers spec",
+    trusted=[A_STD],
+    not_decided=["round trip URL(bytes(u)) == u and well-formedness of IPv6 Host values need the inverse of the urllib contract in the string theory: bounded stand-in only"],
+    bounded=["audit/url_roundtrip.py: hypothesis search over URLs <= 64 bytes (bounded, never counted as proved)"],
+)
+prop(
+    "C20",
+    title="connection retries bounded, establishment only",
+    explanation="exponential_backoff yields 0 then factor*2^n (n-th loop value); retry loop invariant retries_left + pauses == retries with the k-th pause the k-th backoff value (0, 0.5, 1, 2 ... by ground instances), gives up exactly when retries are exhausted re-raising the last error, loops only after ConnectError/ConnectTimeout, any other failure leaves at once with no further backend call; _connect runs only under the request lock with no connection set",
+    trusted=[A_NET, A_SYNC],
+)
